@@ -360,11 +360,13 @@ def run(insns, m0):
             elif mn == "push":
                 m.stack.append(m.regs[ins.reg])
                 m.depth += 8
+                m.regs[RSP] = T.op("add", 64, m.regs[RSP], T.K(64, -8))
             elif mn == "pop":
                 if not m.stack:
                     raise Unsupported("pop of a value the template did not push")
                 m.regs[ins.reg] = m.stack.pop()
                 m.depth -= 8
+                m.regs[RSP] = T.op("add", 64, m.regs[RSP], T.K(64, 8))
             elif mn == "ret":
                 m.exit = ("ret",)
             elif mn == "jmp":
@@ -395,14 +397,27 @@ def run(insns, m0):
                     m.conds.append(T.lnot(c))
             elif mn == "call_rel":
                 if ins.tag and ins.tag[0] == "reloc":
-                    m.events.append(("local_call", ins.tag[1], m.depth, list(m.stack)))
+                    m.events.append(("local_call", ins.tag[1], m.depth, list(m.stack), m.regs[RSP], list(m.regs)))
                     # the callee returns here with callee-visible registers possibly changed: modelled by the caller
                 else:
-                    m.events.append(("call_literal", ins.rel, m.depth))
+                    # `call +N`: pushes the return address and continues N bytes ahead
+                    if not T.is_k(ins.rel):
+                        raise Unsupported("call with a symbolic literal displacement")
+                    skip, j = ins.rel[2], i
+                    while skip > 0 and j < len(insns):
+                        skip -= insns[j].nbytes
+                        j += 1
+                    if skip != 0:
+                        raise Unsupported("literal call displacement does not land on an instruction boundary")
+                    m.events.append(("call_literal", ins.rel[2], i, j, m.regs[RSP]))
+                    m.regs[RSP] = T.op("add", 64, m.regs[RSP], T.K(64, -8))
+                    m.stack.append(("retaddr", i))
+                    m.depth += 8
+                    i = j
             elif mn == "call_ind":
                 tgt = _read(m, ins.tgt, 64)
                 args = tuple(m.regs[r] for r in SYSV_ARGS[:5])
-                m.events.append(("helper_call", tgt, args, m.depth))
+                m.events.append(("helper_call", tgt, args, m.depth, m.regs[RSP]))
                 res = ("call", "helper", (tgt,) + args, 64)
                 for r in range(16):
                     if r not in CALLEE_SAVED and r != RSP:
